@@ -88,6 +88,10 @@ pub struct MsgCase {
     /// FooF / FooG, the messages must still name the methods `Tr::f` / `Tr::g`
     #[serde(default)]
     pub flattened_api: bool,
+    /// tuples, tuple structs and slices inside the pattern are written with a trailing comma (`(1, 2,)`): same
+    /// pattern, and the messages still show the documented rendering without it
+    #[serde(default)]
+    pub trailing_commas: bool,
 }
 
 pub const PRELUDE_EXTRA: &str = r#"
@@ -142,7 +146,10 @@ impl MsgCase {
         for _ in &self.extras {
             c.tys.push(Ty::U8);
         }
-        c.macro_args()
+        crate::pat::TRAILING_COMMAS.with(|t| t.set(self.trailing_commas));
+        let s = c.macro_args();
+        crate::pat::TRAILING_COMMAS.with(|t| t.set(false));
+        s
     }
     pub fn call_debug(&self, tuple: &[Val]) -> String {
         let mut parts: Vec<String> = self
@@ -732,6 +739,9 @@ pub fn judge(c: &MsgCase, line: &str) -> Result<CaseInfo, String> {
     if c.extras.contains(&Extra::MutWithLifetime) {
         info.classes.push("&mut-T<'_>-argument(Impossible)");
     }
+    if c.trailing_commas && crate::pat::print_pat_has_list(&c.pattern) {
+        info.classes.push("sub-pattern-list-written-with-a-trailing-comma");
+    }
     if c.flattened_api {
         info.classes.push("flattened-api(entry-points-named-differently-from-the-methods)");
     }
@@ -757,11 +767,12 @@ pub fn case_strategy() -> impl Strategy<Value = MsgCase> {
         any::<bool>(),
         proptest::bool::weighted(0.4),
         proptest::bool::weighted(0.3),
+        proptest::bool::weighted(0.35),
     )
-        .prop_filter("needs at least one pattern argument", |(p, _, _, _, _, _)| {
+        .prop_filter("needs at least one pattern argument", |(p, _, _, _, _, _, _)| {
             !p.tys.is_empty()
         })
-        .prop_map(|(mut pattern, mut extras, pick, simple, multiline, flattened_api)| {
+        .prop_map(|(mut pattern, mut extras, pick, simple, multiline, flattened_api, trailing_commas)| {
             pattern.parenthesized = false;
             if simple {
                 // the mismatch-position part of the property: guard-free, single alternative
@@ -781,11 +792,12 @@ pub fn case_strategy() -> impl Strategy<Value = MsgCase> {
                 pick,
                 multiline,
                 flattened_api,
+                trailing_commas,
             }
         })
 }
 
-pub const RULE: &str = "programs = C06's pattern grammar (1-4 pattern-typed arguments) extended by 0-2 extra parameters {type without Debug, reference to it, &u32, &&u32, &mut u32, generic without / with Debug bound, slice of non-Debug values}; for each pattern one rejected and one accepted argument tuple of the finite domain are chosen and every mock-induced error kind is triggered on a fresh mock: no matching call patterns (also with two clauses of the same pattern text: one entry per pattern and position), inputs not matched in call order, explicit panic, value returned twice, no output available, wrong order, out of range, no mock implementation, cannot unmock, no default impl, plus a failed verification naming the pattern; the matching! invocations are written on one line or laid out over several lines (the named location is the line where the invocation starts); the trait uses the module api or the flattened api (entry points named differently from the methods, which the messages must still name). Non-trivial = arity >= 2 with a reference parameter and a checked mismatch report; distinct = distinct case";
+pub const RULE: &str = "programs = C06's pattern grammar (1-4 pattern-typed arguments) extended by 0-2 extra parameters {type without Debug, reference to it, &u32, &&u32, &mut u32, generic without / with Debug bound, slice of non-Debug values}; for each pattern one rejected and one accepted argument tuple of the finite domain are chosen and every mock-induced error kind is triggered on a fresh mock: no matching call patterns (also with two clauses of the same pattern text: one entry per pattern and position), inputs not matched in call order, explicit panic, value returned twice, no output available, wrong order, out of range, no mock implementation, cannot unmock, no default impl, plus a failed verification naming the pattern; the matching! invocations are written on one line or laid out over several lines (the named location is the line where the invocation starts); the trait uses the module api or the flattened api (entry points named differently from the methods, which the messages must still name); tuples, tuple structs and slices inside a pattern are written with or without a trailing comma (the rendering in the messages is the same). Non-trivial = arity >= 2 with a reference parameter and a checked mismatch report; distinct = distinct case";
 
 fn spec<'a>(prelude: &'a str) -> Spec<'a, MsgCase> {
     Spec {
